@@ -187,6 +187,61 @@ def showJson (cfg : JCfg) (mode : String) (r : JState × List Tape) : String :=
   if mode = "s" then base
   else s!"{base} v={showList id (batches.map rowValues).flatten}"
 
+/-! Avro streaming decoder -/
+
+/-- the two registered writer schemas: A = {id: long, s: string}, B = {x: long} -/
+def avRowOf (fp : Nat) (data : Bytes) : RowRes String :=
+  match vlqLong ⟨0, 0⟩ data with
+  | (.more _, _) => .incomplete
+  | (.err, _) => .bad
+  | (.done x, k) =>
+    if fp = 1 then .ok k s!"B:{x}"
+    else
+      match vlqLong ⟨0, 0⟩ (data.drop k) with
+      | (.more _, _) => .incomplete
+      | (.err, _) => .bad
+      | (.done len, k2) =>
+        if len < 0 then .bad
+        else if (data.drop (k + k2)).length < len.toNat then .incomplete
+        else .ok (k + k2 + len.toNat) s!"A:{x}:{toHex ((data.drop (k + k2)).take len.toNat)}"
+
+def avPrefixOf (magicLen : Nat) (pA pB : Bytes) (data : Bytes) : PrefixRes :=
+  if data.length < magicLen then .needMore
+  else if data.take magicLen != pA.take magicLen then .mismatch
+  else if data.length < pA.length then .needMore
+  else if data.take pA.length == pA then .found 0 pA.length
+  else if data.take pA.length == pB then .found 1 pA.length
+  else .found 2 pA.length
+
+/-- run a schedule: chunks with the flush policy; returns rows in order and the verdict -/
+def avRun (cfg : AvCfg String) (policy : String) (chunks : List Bytes) : String :=
+  let every : Nat := if policy.startsWith "k" then ((policy.drop 1).toString.toNat?.getD 1) else 0
+  let rec go (i : Nat) (sb : AvState String × Bytes) (acc : List (Nat × List String)) :
+      List Bytes → (AvState String × Bytes) × List (Nat × List String)
+    | [] => (sb, acc)
+    | c :: cs =>
+      let extra := policy == "c" || (every > 0 && (i + 1) % every == 0)
+      let r := avPush cfg extra (c.length + sb.2.length + 4) (sb.1, sb.2 ++ c) acc
+      if r.1.1.err then r else go (i + 1) r.1 r.2 cs
+  let r := go 0 (avInit cfg, []) [] chunks
+  let fin := avFlush cfg r.1.1
+  let batches := r.2 ++ fin.2
+  let rows := (batches.map (·.2)).flatten
+  let verdict := if r.1.1.err then "ERR:decode" else if r.1.2.isEmpty then "ok" else s!"partial:{r.1.2.length}"
+  if batches.any (fun b => b.2.length > cfg.batchSize) then "MODEL-SPEC-MISMATCH batch above batch_size"
+  else s!"rows={showList id rows} r={verdict}"
+
+/-- frame-by-frame reference chunking of the model: cut after every complete frame -/
+def avFrames (cfg : AvCfg String) : Nat → Bytes → List Bytes
+  | 0, data => [data]
+  | fuel + 1, data =>
+    match cfg.pfx data with
+    | .found fp n =>
+      match cfg.row (if fp = 2 then 0 else fp) (data.drop n) with
+      | .ok k _ => data.take (n + k) :: avFrames cfg fuel (data.drop (n + k))
+      | _ => [data]
+    | _ => [data]
+
 def check (model : String) (others : List (String × String)) : String :=
   match others.find? (fun o => o.2 != model) with
   | none => model
@@ -265,6 +320,21 @@ def handle (toks : List String) : String :=
   | "ipcx" :: _ => "SKIP"
   | "pqmeta" :: _ => "SKIP"
   | "flight" :: _ => "SKIP"
+  | ["avrod", alg, bs, hex, chunks, policy, pa, pb] =>
+    match bs.toNat?, parseHex hex, parseList String.toNat? chunks, parseHex pa, parseHex pb with
+    | some bs, some xs, some sizes, some pA, some pB =>
+      match splitChunks xs sizes with
+      | some cs =>
+        let cfg : AvCfg String := ⟨bs, avPrefixOf (if alg = "c" then 1 else 2) pA pB, fun fp => fp < 2, avRowOf⟩
+        let frames := avFrames cfg (xs.length + 1) xs
+        -- the harness answers with the frame-by-frame, flush-after-each reference; the model must give
+        -- the same for that schedule, for everything in one chunk, and — when no chunk boundary of the
+        -- line falls inside a row body (rows are atomic in the model anyway) — for the line's schedule
+        let reference := avRun cfg "c" frames
+        check reference [("all-in-one", avRun cfg "f" [xs]), ("all-in-one-c", avRun cfg "c" [xs]),
+          ("line-schedule", avRun cfg policy cs), ("frames-f", avRun cfg "f" frames), ("frames-k2", avRun cfg "k2" frames)]
+      | none => "bad-op"
+    | _, _, _, _, _ => "bad-op"
   | "avrod" :: _ => "SKIP"
   | "csvo" :: _ => "SKIP"
   | ["avro", _bs, hex, chunks, hdr] =>
